@@ -153,6 +153,32 @@ class RequestPath(object):
         return False
 
     @staticmethod
+    def _declared_field(d):
+        """``attr.ib(..)`` / ``attr.attrib(..)`` / ``attrib(..)`` / ``field(..)`` / ``dataclasses.field(..)`` in a class body:
+        'factory' when instances get their own object (``factory=`` / ``default_factory=`` / ``default=attr.Factory(..)``),
+        the default expression when one is given, '' when there is none; None when ``d`` is not a field declaration."""
+        if not isinstance(d, ast.Call):
+            return None
+        f = d.func
+        name = f.id if isinstance(f, ast.Name) else (f.attr if isinstance(f, ast.Attribute) else None)
+        if name not in ('ib', 'attrib', 'attr', 'field'):
+            return None
+        if isinstance(f, ast.Attribute) and not (isinstance(f.value, ast.Name) and f.value.id in ('attr', 'attrs', 'dataclasses')):
+            return None
+        default = d.args[0] if d.args and name != 'field' else None
+        for k in d.keywords:
+            if k.arg in ('factory', 'default_factory'):
+                return 'factory'
+            if k.arg == 'default':
+                default = k.value
+        if isinstance(default, ast.Call):
+            g = default.func
+            gname = g.id if isinstance(g, ast.Name) else (g.attr if isinstance(g, ast.Attribute) else None)
+            if gname == 'Factory':
+                return 'factory'
+        return default if default is not None else ''
+
+    @staticmethod
     def _assigned(fi, name):
         from ..astutil import assigned_value
         return assigned_value(fi.node, name)
@@ -489,7 +515,15 @@ class RequestPath(object):
                 owner, val = self.repo.class_attr(ci, field)
             except Exception:
                 owner, val = None, None
-            if owner is None or not isinstance(val, ast.expr) or owner.mod.external or not self._mutable_default(val):
+            if owner is None or not isinstance(val, ast.expr) or owner.mod.external:
+                continue
+            decl = self._declared_field(val)
+            if decl == 'factory':
+                continue        # attrs / dataclass field with a factory: every instance gets an object of its own
+            if decl is not None:
+                if not (isinstance(decl, ast.expr) and self._mutable_default(decl)):
+                    continue    # a declared field with an immutable (or no) default
+            elif not self._mutable_default(val):
                 continue
             init = self.repo.find_method(ci, '__init__')
             covered = False
